@@ -558,8 +558,8 @@ pub fn step(snap: &Snapshot, op: &Op, results: &[ResSpec], verbose: bool) -> St 
                 // metadata and SBOM files must be gone with it - otherwise the next build is shown
                 // valid-looking metadata for an emptied directory and may keep it
                 let deleted: Vec<String> = pre.files.0.keys().filter(|k| !post.files.0.contains_key(*k)).map(|k| String::from_utf8_lossy(k).to_string()).collect();
-                if deleted.is_empty() && post.types() != pre.types() {
-                    // nothing was deleted, nothing was created or updated: the layer's declared types
+                if deleted.is_empty() && post.toml.is_some() && post.types() != pre.types() {
+                    // nothing was deleted (files and content metadata file still there), nothing was created or updated: the layer's declared types
                     // are still the ones it had (a refused migration or strategy decides nothing)
                     bad = Some(("failed-call-changed-types".into(), format!("{ctxs}: the call failed without replacing the layer, but its types on disk changed from {:?} to {:?}", pre.types(), post.types())));
                 } else if !deleted.is_empty() && (post.toml.is_some() || !post.sboms.is_empty()) {
